@@ -240,10 +240,12 @@ Definition finished (c : cfg) (sd : side) (rel : list bool) (i : nat) (s : st) :
 (* SyncState.change(age) with time.time() = now; [order] = list(state._changeset) as indices *)
 Fixpoint nodupb (l : list nat) : bool :=
   match l with [] => true | x :: r => negb (existsb (Nat.eqb x) r) && nodupb r end.
-Definition count_in (l : list ent) : nat := length (filter inset l).
+Definition member (s : st) (i : nat) : bool :=
+  match nth_error (ents s) i with Some e => inset e | None => false end.
+(* [order] lists every member of the change set, only members, each once *)
 Definition order_ok (order : list nat) (s : st) : bool :=
-  nodupb order && Nat.eqb (length order) (count_in (ents s)) &&
-  forallb (fun i => match nth_error (ents s) i with Some e => inset e | None => false end) order.
+  nodupb order && forallb (member s) order &&
+  forallb (fun j => negb (member s j) || existsb (Nat.eqb j) order) (seq 0 (length (ents s))).
 Definition tagged (order : list nat) (s : st) : list (nat * ent) :=
   map (fun i => (i, nth i (ents s) new_ent)) order.
 Definition change (c : cfg) (now age : Q) (order : list nat) (s : st) : res (option nat) :=
@@ -316,19 +318,39 @@ Definition cfg_float (pL pR : Q) : cfg := {| c_rnd := fl53; c_eps := eps_float; 
 Definition cfg_exact (pL pR : Q) : cfg := {| c_rnd := fun x => x; c_eps := 1 # 1000; c_pL := pL; c_pR := pR |}.
 
 (* ------------------------------------------------------------------ wire protocol *)
+(* naturals beyond the driver's native ints travel as little-endian lists of base-2^32 digits *)
+Definition limb : N := 4294967296%N.
+Fixpoint un_big_l (l : list sx) : option N :=
+  match l with
+  | [] => Some 0%N
+  | A d :: r => match un_big_l r with Some n => Some (d + limb * n)%N | None => None end
+  | L _ :: _ => None
+  end.
+Definition un_big (x : sx) : option N := match x with L l => un_big_l l | A _ => None end.
+Fixpoint limbs (fuel : nat) (n : N) : list sx :=
+  match fuel with
+  | O => []
+  | S f => if N.eqb n 0 then [] else A (N.modulo n limb) :: limbs f (N.div n limb)
+  end.
+Definition sx_big (n : N) : sx := L (limbs (S (N.to_nat (N.size n))) n).
+
 Definition un_q (x : sx) : option Q :=
   match x with
-  | L [A sg; A n; A (Npos d)] =>
-    match sg with
-    | 0%N => Some (Qmake (Z.of_N n) d)
-    | 1%N => Some (Qmake (- Z.of_N n) d)
-    | _ => None
+  | L [A sg; n; d] =>
+    match un_big n, un_big d with
+    | Some n, Some (Npos d) =>
+      match sg with
+      | 0%N => Some (Qmake (Z.of_N n) d)
+      | 1%N => Some (Qmake (- Z.of_N n) d)
+      | _ => None
+      end
+    | _, _ => None
     end
   | _ => None
   end.
 Definition sx_q (q : Q) : sx :=
   let r := Qred q in
-  L [A (if (Qnum r <? 0)%Z then 1 else 0)%N; A (Z.abs_N (Qnum r)); A (Npos (Qden r))].
+  L [A (if (Qnum r <? 0)%Z then 1 else 0)%N; sx_big (Z.abs_N (Qnum r)); sx_big (Npos (Qden r))].
 Definition un_stamp : sx -> option stamp := un_opt un_q.
 Definition sx_stamp : stamp -> sx := sx_opt sx_q.
 Definition un_nat (x : sx) : option nat := match x with A n => Some (N.to_nat n) | L _ => None end.
